@@ -32,6 +32,10 @@ func init() {
 		c06DeepChild(spec)
 		os.Exit(0)
 	}
+	if spec := os.Getenv("VERIF_C06_ONE"); spec != "" {
+		c06OneChild(spec)
+		os.Exit(0)
+	}
 	register("C06", c06)
 }
 
@@ -436,6 +440,47 @@ func c06Deep(r *Rand) string {
 	return s
 }
 
+// Look-ahead sites of the lexer (peek, peekTwo, zshNumRange, the backquote/backslash test in rune,
+// stopAt, here-document delimiters, multi-byte runes at the buffer edge …) decide from the bytes
+// that happen to be buffered (1 KiB) and refill when they run out.  A long run of one byte class
+// right after the trigger makes them cross the buffer one or more times: (prefix, repeated unit).
+var c06LookAhead = []struct{ pre, unit, post string }{
+	{"echo <", "1", " x"}, {"echo <", "1", "-2> x"}, {"echo <1", "-", "> x"}, {"echo <", "1", "> x"}, {"ls <-", "9", "> x"},
+	{"echo `a ", "\\", "` x"}, {"echo \"`a ", "\\", "\"` x\""}, {"echo `", "\\`", "` x"}, {"echo ", "\\", "a x"},
+	{"echo ${", "a", "} x"}, {"echo ${a", "[", "1]} x"}, {"echo ${", "#", "a} x"}, {"echo ${", "=", "a} x"}, {"echo ${a:", "1", "} x"},
+	{"echo ${a", ":", "-b} x"}, {"echo ${a/", "x", "/y} x"}, {"echo ${(", "f", ")a} x"}, {"echo $", "{", "a} x"}, {"echo $", "$", " x"},
+	{"echo a ", "#", " c\nx"}, {"echo a#", "#", " x"}, {"", "#", "\necho x"}, {"echo $", "#", " x"},
+	{"echo '", "\\\n", "' x"}, {"echo \"", "\\\n", "\" x"}, {"echo a", "\\\n", "b x"}, {"echo $'", "\\'", "' x"}, {"echo a", "\\\r\n", "b x"},
+	{"echo $((", "(", "1 x"}, {"echo $((", "1", ")) x"}, {"echo $((", " ", "1)) x"}, {"((", "1+", "1)); x"}, {"echo $((1", "<", "2)) x"}, {"echo $[", "1", "] x"},
+	{"echo ${a[", "1", "]} x"}, {"echo ${a[", "[", "]} x"}, {"a[", "1", "]=x; y"}, {"a=(", "[", "1]=x) y"},
+	{"echo @(", "a", ") x"}, {"echo ?(", "(", ") x"}, {"echo +(", "|", ") x"}, {"echo !", "(", "a) x"}, {"echo a", "*", "(b) x"},
+	{"cat <<", "E", "\nbody\nE\nx"}, {"cat <<-", "\t", "E\nbody\nE\nx"}, {"cat <<'", "E", "'\nbody\nE\nx"}, {"cat <<", "<", " x"}, {"cat <<E\n", "\t", "E\nx"},
+	{"echo ", "a", " x"}, {"", "a", "=b x"}, {"a", "=", " x"}, {"echo ", "é", " x"}, {"echo ", "\xf0\x9f\x98\x80", " x"}, {"echo ", "\xff", " x"}, {"echo ", "\xc3", " x"},
+	{"echo ", "\x00", "a x"}, {"echo a", "\r", "\nx"}, {"echo ", "\t", "a x"}, {"", "\n", "x"}, {"echo ", "$a", " x"}, {"echo \"", "$", "\" x"},
+	{"echo ", "{a,b}", " x"}, {"echo {", "1", "..3} x"}, {"", "{", "a} x"}, {"echo ", "~", " x"}, {"x ", ">", "y"}, {"x ", "&", "y"}, {"x ", "|", "y"}, {"x ", ";", "y"},
+	{"[[ a =~ ", "(", "b) ]]"}, {"[[ a == ", "\\", "b ]]"}, {"[[ ", "!", " a ]]"}, {"echo ", "'a'", " x"}, {"echo ", "\"a\"", " x"}, {"f", "(", ") { :; }"},
+	{"echo $", "(", "a) x"}, {"echo <(", "<", "a) x"}, {"coproc ", "a", " { :; }"}, {"time ", "-", "p x"}, {"function ", "f", " { :; }"}, {"for ((", ";", ")); do :; done"},
+}
+
+func c06RunLens() []int { return []int{1100, 2100, 5000} }
+
+// c06LookAheadInput: optional padding so that the trigger sits at a chosen offset modulo the
+// buffer size, the trigger, the run, and more input after it.
+func c06LookAheadInput(k, n, pad int) string {
+	t := c06LookAhead[k%len(c06LookAhead)]
+	var sb strings.Builder
+	if pad > 0 {
+		sb.WriteString(": ")
+		sb.WriteString(strings.Repeat("p", pad-3))
+		sb.WriteString("\n")
+	}
+	sb.WriteString(t.pre)
+	sb.WriteString(strings.Repeat(t.unit, (n+len(t.unit)-1)/len(t.unit)))
+	sb.WriteString(t.post)
+	sb.WriteString("\necho more input follows; echo \"$a\"\n")
+	return sb.String()
+}
+
 func c06LongLine(r *Rand) string {
 	n := 2000 + r.Intn(30000)
 	switch r.Intn(7) {
@@ -470,6 +515,98 @@ func c06Minimize(src string, stillFails func(string) bool) string {
 		}
 	}
 	return src
+}
+
+// ---- one case in a child process: a goroutine that loops forever cannot be stopped, a process can ----
+
+// spec: entry|lang index|keep|stopAt hex|recover|fork label hex|source hex
+func c06OneSpec(e int, o c06Opts, label, src string) string {
+	li := 0
+	for i, l := range allLangs {
+		if l == o.lang {
+			li = i
+		}
+	}
+	return fmt.Sprintf("%d|%d|%v|%s|%d|%s|%s", e, li, o.keep, hx(o.stopAt), o.recover, hx(label), hx(src))
+}
+
+func c06OneChild(spec string) {
+	f := strings.Split(spec, "|")
+	e, _ := strconv.Atoi(f[0])
+	li, _ := strconv.Atoi(f[1])
+	rec, _ := strconv.Atoi(f[4])
+	o := c06Opts{lang: allLangs[li], keep: f[2] == "true", stopAt: unhx(f[3]), recover: rec}
+	msg, _ := c06One(e, o, unhx(f[6]), (&Rand{s: 1}).Fork(unhx(f[5])), nil)
+	fmt.Println("C06-ONE-RESULT " + strings.ReplaceAll(msg, "\n", " "))
+}
+
+// c06ProcCPU reads utime+stime of a live process from /proc (seconds).
+func c06ProcCPU(pid int) (float64, bool) {
+	b, err := os.ReadFile(fmt.Sprintf("/proc/%d/stat", pid))
+	if err != nil {
+		return 0, false
+	}
+	st := string(b)
+	i := strings.LastIndex(st, ")") // the command name may contain spaces
+	f := strings.Fields(st[i+1:])
+	if len(f) < 13 {
+		return 0, false
+	}
+	ut, _ := strconv.ParseFloat(f[11], 64)
+	stm, _ := strconv.ParseFloat(f[12], 64)
+	return (ut + stm) / 100, true // USER_HZ is 100 on Linux
+}
+
+// c06RunChild runs one case in a child process and judges it by the CPU time the child has
+// consumed, not by the wall clock: on a loaded machine a starved child is not a hang, a child that
+// has burnt cpuBudget seconds without returning is.  status: returned | hang | starved | other.
+func c06RunChild(e int, o c06Opts, label, src string, cpuBudget float64, wallBudget time.Duration) (status, msg string, cpu float64) {
+	exe, err := os.Executable()
+	if err != nil {
+		return "other", err.Error(), 0
+	}
+	cmd := exec.Command(exe)
+	cmd.Env = append(os.Environ(), "VERIF_C06_ONE="+c06OneSpec(e, o, label, src), "GOMAXPROCS=2")
+	var out bytes.Buffer
+	cmd.Stdout, cmd.Stderr = &out, &out
+	if err := cmd.Start(); err != nil {
+		return "other", err.Error(), 0
+	}
+	done := make(chan error, 1)
+	go func() { done <- cmd.Wait() }()
+	t0 := time.Now()
+	tick := time.NewTicker(200 * time.Millisecond)
+	defer tick.Stop()
+	for {
+		select {
+		case <-done:
+			o := out.String()
+			if i := strings.Index(o, "C06-ONE-RESULT"); i >= 0 {
+				return "returned", strings.TrimSpace(strings.SplitN(o[i+len("C06-ONE-RESULT"):], "\n", 2)[0]), cpu
+			}
+			if strings.Contains(o, "stack overflow") {
+				return "other", "fatal error: stack overflow", cpu
+			}
+			if len(o) > 300 {
+				o = o[:300]
+			}
+			return "other", "child died: " + o, cpu
+		case <-tick.C:
+			if c, ok := c06ProcCPU(cmd.Process.Pid); ok {
+				cpu = c
+			}
+			if cpu > cpuBudget {
+				cmd.Process.Kill()
+				<-done
+				return "hang", "", cpu
+			}
+			if time.Since(t0) > wallBudget {
+				cmd.Process.Kill()
+				<-done
+				return "starved", "", cpu
+			}
+		}
+	}
 }
 
 // ---- deep-nesting probe (subprocess: a Go stack overflow is a fatal error, not a panic) ----
@@ -608,6 +745,23 @@ func c06(c *Ctx) {
 			}
 		}
 	}
+	// look-ahead runs: every trigger × three run lengths × every variant (the shards share the
+	// triggers between them), all six entry points as for every job
+	for k := range c06LookAhead {
+		if k%c.Shards != c.Shard {
+			continue
+		}
+		for _, n := range c06RunLens() {
+			for _, lang := range allLangs {
+				src := c06LookAheadInput(k, n, 0)
+				o := c06Opts{lang: lang, keep: k%2 == 0}
+				if (k+n)%7 == 0 {
+					o.recover = 2
+				}
+				jobs = append(jobs, job{src, "lookahead-run", o, c.R.Fork(src)})
+			}
+		}
+	}
 	if c.Shard == 0 {
 		for _, u := range c06DeepUnits {
 			for _, n := range []int{100, 300, 1000} {
@@ -660,9 +814,12 @@ func c06(c *Ctx) {
 			kind = "splice"
 			a, b := seeds[r.Intn(len(seeds))], seeds[r.Intn(len(seeds))]
 			src = a[:r.Intn(len(a)+1)] + b[r.Intn(len(b)+1):]
-		case k < 96:
+		case k < 94:
 			kind = "deep"
 			src = c06Deep(r)
+		case k < 96:
+			kind = "lookahead-run"
+			src = c06LookAheadInput(r.Intn(len(c06LookAhead)), c06RunLens()[r.Intn(3)], []int{0, 1018, 1020, 1021, 1022, 1023, 1024, 1025, 3 + r.Intn(2100)}[r.Intn(9)])
 		case k < 99:
 			// RecoverErrors is exercised best by programs that stop in the middle of a construct
 			kind = "truncation"
@@ -691,6 +848,7 @@ func c06(c *Ctx) {
 		slow     time.Duration
 		suspects []int
 		ops      []c06Op
+		skipped  bool
 	}
 	workers := 4
 	if thorough {
@@ -719,10 +877,23 @@ func c06(c *Ctx) {
 	}
 	var opsLeft atomic.Int64 // tie lines are sampled: at most this many per shard
 	opsLeft.Store(60000)
+	var leaked atomic.Int64 // goroutines abandoned after a timeout; they may be spinning
 	results := parallelMap(len(jobs), workers, func(i int) res {
 		j := jobs[i]
 		var out res
 		for e := range c06Entries {
+			if len(out.suspects) > 0 {
+				// this input has already run out of time once: its other entry points would likely do
+				// the same and leave one more unstoppable goroutine behind; the child-process phase
+				// takes them over
+				out.suspects = append(out.suspects, e)
+				continue
+			}
+			if leaked.Load() >= 16 {
+				// too many abandoned (possibly spinning) goroutines: schedule no more in-process work
+				out.skipped = true
+				break
+			}
 			t0 := time.Now()
 			budget := 5*time.Second + 2*time.Duration(len(j.src))*time.Millisecond
 			var opsp *[]c06Op
@@ -733,7 +904,8 @@ func c06(c *Ctx) {
 			msg, tree, to := runOne(j, e, budget, opsp)
 			opsLeft.Add(-int64(len(out.ops) - before))
 			if to {
-				// possibly only machine load: re-run alone after the parallel phase
+				// possibly only machine load: re-run in a child process after the parallel phase
+				leaked.Add(1)
 				out.suspects = append(out.suspects, e)
 			} else if msg != "" {
 				out.fails = append(out.fails, Failure{Witness: fmt.Sprintf("%s %s %s", c06Entries[e], j.o, hx(j.src)), What: msg})
@@ -745,27 +917,37 @@ func c06(c *Ctx) {
 		}
 		return out
 	})
+	// A case that ran out of its wall-clock budget is only a suspect (the machine may be loaded).
+	// It is run again in a child process, which can be killed, and judged by the CPU time it burns:
+	// 20 s + 20 ms per input byte of CPU without returning is a hang.
 	for i := range results {
 		j := jobs[i]
 		for _, e := range results[i].suspects {
-			c.Hist["retried-alone-after-timeout"]++
-			budget := 120 * time.Second
-			msg, _, to := runOne(j, e, budget, nil)
+			c.Hist["suspect-rerun-in-child"]++
 			w := fmt.Sprintf("%s %s %s", c06Entries[e], j.o, hx(j.src))
-			if to {
-				// even alone: still only a suspicion on a loaded machine; judged by CPU-free criterion
-				// "twice in a row", the second time with a doubled budget
-				if _, _, to2 := runOne(j, e, 2*budget, nil); to2 {
-					results[i].fails = append(results[i].fails, Failure{Witness: w, What: fmt.Sprintf("did not return within %v, run alone, twice (hang)", 2*budget)})
+			cpuBudget := 20 + 0.02*float64(len(j.src))
+			status, msg, cpu := c06RunChild(e, j.o, c06Entries[e], j.src, cpuBudget, 15*time.Minute)
+			c.Hist["suspect-child:"+status]++
+			switch status {
+			case "hang":
+				results[i].fails = append(results[i].fails, Failure{Witness: w, What: fmt.Sprintf("did not return: a child process running only this case was killed after %.0f s of CPU time (hang)", cpu)})
+			case "returned":
+				if msg != "" {
+					results[i].fails = append(results[i].fails, Failure{Witness: w, What: msg})
 				}
-			} else if msg != "" {
-				results[i].fails = append(results[i].fails, Failure{Witness: w, What: msg})
+			case "other":
+				if msg != "" && !strings.Contains(msg, "stack overflow") {
+					results[i].fails = append(results[i].fails, Failure{Witness: w, What: msg})
+				}
 			}
 		}
 	}
 	var slowest time.Duration
 	slowKinds := map[string]time.Duration{}
 	for i, r := range results {
+		if r.skipped {
+			c.Hist["skipped-after-16-timeouts"]++
+		}
 		slowKinds[jobs[i].kind] += r.slow
 		j := jobs[i]
 		c.Case(j.o.String()+"\x00"+j.src, r.tree, "lang="+langName(j.o.lang), "kind="+j.kind, fmt.Sprintf("recover=%v", j.o.recover > 0),
